@@ -10,7 +10,11 @@ use crate::codegen::SeparatedExprs;
 use crate::pr;
 
 pub(crate) fn write_expr(expr: &pr::Expr) -> String {
-    expr.write(WriteOpt::new_width(u16::MAX)).unwrap()
+    // Used for messages and log records. An expression that does not fit into the widest
+    // line there is (u16::MAX columns) must not make the caller panic: log records are
+    // formatted while the debug log's lock is held.
+    expr.write(WriteOpt::new_width(u16::MAX))
+        .unwrap_or_else(|| "<expression too long to display>".to_string())
 }
 
 fn write_within<T: WriteSource>(
